@@ -139,6 +139,58 @@ def check_group_history(arg):
     return fails, 1
 
 
+def check_config_row(arg):
+    """the same pairs with entries and group members as `acls()` loads them from a device configuration (members attached by the library itself)"""
+    import logging
+    import cisco_acl
+    logging.disable(logging.CRITICAL)
+    platform, i = arg
+    cfg, kept = sc.config_text(platform, sc.ACES[platform])
+    fails = []
+    try:
+        items = [o for o in cisco_acl.acls(cfg, platform=platform)[0].items if isinstance(o, cisco_acl.Ace)]
+        if len(items) != len(kept):
+            raise ValueError(f"{len(items)} entries loaded from {len(kept)} lines")
+    except Exception as ex:
+        return [dict(key="bounded/config:not-loaded", what=f"acls() on the {platform} configuration with {len(kept)} entries: {type(ex).__name__}: {str(ex)[:150]}",
+                     inputs=dict(platform=platform), cmd=None)], 1
+    top, top_l = items[i], kept[i]
+    st = sc.ref_sem(top_l, platform)
+    n = 0
+    for bot, bot_l in zip(items, kept):
+        n += 1
+        sb = sc.ref_sem(bot_l, platform)
+        try:
+            r = bot.shadow_of(top)
+        except Exception as ex:
+            fails.append(dict(key=f"bounded/config:shadow_of:error:{type(ex).__name__}", what=f"loaded {bot_l!r}.shadow_of({top_l!r}) raised {type(ex).__name__}: {ex}",
+                              inputs=dict(top=top_l, bottom=bot_l, platform=platform)))
+            continue
+        if r:
+            w = {"field": "action"} if st.action != sb.action else sets.sem_subset(sb, st)
+            if w is not None:
+                fails.append(dict(key=f"bounded/config:shadow_of:unsound:{w.get('field')}",
+                                  what=f"loaded from a configuration: {bot_l!r} reported in the shadow of {top_l!r} but packet {w} matches only the bottom entry",
+                                  inputs=dict(top=top_l, bottom=bot_l, platform=platform, witness=w)))
+    for f in fails:
+        f["cmd"] = ("import sys; sys.path.insert(0, 'props'); import C03\n"
+                    f"fails, _ = C03.check_config_row({arg!r})\nprint([f['what'] for f in fails][:5]); sys.exit(1 if fails else 0)\n")
+    return fails[:3], n
+
+
+def bounded_config(chk):
+    t0 = time.time()
+    cases = [(p, i) for p in ("ios", "nxos") for i in range(len(sc.config_text(p, sc.ACES[p])[1]))]
+    res = pmap(check_config_row, cases)
+    viol = 0
+    for fails, _ in res:
+        for f in fails:
+            viol += 1
+            chk.finding(f["key"], f["what"], inputs=f["inputs"], cmd=f.get("cmd"), key=f["key"])
+    chk.add_bounded("Ace.shadow_of on entries and group members loaded by acls() from a configuration (groups on one and on both sides)", sum(n for _, n in res), len(cases),
+                    "all ordered pairs of the ACE classes per platform, members attached by the library", viol, time.time() - t0, [dict(platform=cases[0][0], top_index=cases[0][1])], exhaustive=True)
+
+
 def replay_port_sound(model, ob):
     """focused native search for the `port sound` clause: a top with an operator and an empty port set"""
     side = "src" if "srcport" in ob.target else "dst"
@@ -231,6 +283,7 @@ def main(chk):
     chk.lemmas(lemmas())
     bounded(chk)
     bounded_histories(chk)
+    bounded_config(chk)
     chk.assumptions += [
         "object views: Inv(Port) (no operator => no ports) and Inv(Address) are class invariants established by the line setters (checked by the C06/C01 bounded monitors, not proved)",
         "assumed contracts: Protocol.name.fget (ip <=> 0, decided by C09), AddressBase.ipnets (ghost value; see C13/C05)",
